@@ -64,3 +64,36 @@ Example C06_nonvacuous :
   | _, _ => False
   end.
 Proof. vm_compute. repeat split. Qed.
+
+(** ** Multi-node form (ChainProofs): phantom protection along the whole leaf chain, under inserts, removes,
+    splits and unlinks in any interleaving: at ANY later instant, if every recorded (node, version) pair is
+    still current, the result is exactly the set of keys of the interval that exist now.  In particular an
+    insert into the interval that completed and is not in the result has made a recorded pair stale. *)
+From Yk Require Import ChainDefs ChainProofs.
+
+Theorem C06_chain_phantom_free : forall kss evs s,
+  kss_ok kss = true -> crun true (cinit kss) evs = Some s ->
+  sc_pc (c_scan s) = CDone ->
+  (forall id v, In (id, v) (sc_nvset (c_scan s)) ->
+     exists n, find_node id (c_nodes s) = Some n /\ cn_ver n = v) ->
+  sc_res (c_scan s) = filter (in_interval (sc_l (c_scan s)) (sc_r (c_scan s))) (all_keys (c_nodes s)).
+Proof. exact chain_scan_phantom_free. Qed.
+Print Assumptions C06_chain_phantom_free.
+
+(** contrapositive, the statement of the property: a key of the interval that is present now and is not in the
+    result of the completed scan leaves at least one recorded pair stale *)
+Theorem C06_chain_seen_or_stale : forall kss evs s k,
+  kss_ok kss = true -> crun true (cinit kss) evs = Some s ->
+  sc_pc (c_scan s) = CDone ->
+  In k (all_keys (c_nodes s)) -> in_interval (sc_l (c_scan s)) (sc_r (c_scan s)) k = true ->
+  In k (sc_res (c_scan s)) \/
+  ~ (forall id v, In (id, v) (sc_nvset (c_scan s)) ->
+       exists n, find_node id (c_nodes s) = Some n /\ cn_ver n = v).
+Proof.
+  intros kss evs s k Hk Hr Hd Hin Hiv.
+  destruct (in_dec N.eq_dec k (sc_res (c_scan s))) as [Hy | Hn]; [left; exact Hy | right].
+  intros Hall. apply Hn.
+  rewrite (chain_scan_phantom_free kss evs s Hk Hr Hd Hall).
+  apply filter_In. split; assumption.
+Qed.
+Print Assumptions C06_chain_seen_or_stale.
